@@ -32,6 +32,7 @@ import (
 	codectypes "github.com/cosmos/cosmos-sdk/codec/types"
 	"github.com/cosmos/cosmos-sdk/runtime"
 	sdk "github.com/cosmos/cosmos-sdk/types"
+	"github.com/cosmos/cosmos-sdk/types/bech32"
 	authtypes "github.com/cosmos/cosmos-sdk/x/auth/types"
 	"github.com/cosmos/gogoproto/proto"
 	ethcommon "github.com/ethereum/go-ethereum/common"
@@ -701,6 +702,14 @@ func NondetAddrStr(name string) (string, bool) {
 	if ok {
 		h := sha256.Sum256(append([]byte("verif-addr:"), bz...))
 		s, err := sdk.Bech32ifyAddressBytes(sdk.GetConfig().GetBech32AccountAddrPrefix(), h[:20])
+		if err != nil {
+			panic(err)
+		}
+		core = s
+	}
+	if !ok && valUint(name+"_wf") != 0 {
+		// well-formed bech32 that is not an acceptable account address: the empty payload
+		s, err := bech32.ConvertAndEncode(sdk.GetConfig().GetBech32AccountAddrPrefix(), []byte{})
 		if err != nil {
 			panic(err)
 		}
